@@ -374,10 +374,18 @@ func c18Defect(g *Rng, k c18Knobs, st *c18Step, s *c18Spec, dim string) {
 			st.Intent = append(st.Intent, "signature:detached-only")
 		}
 	case "destination":
-		how := g.Intn(12)
+		how := g.Intn(14)
 		var v *string
 		lab := ""
 		switch how {
+		case 12, 13:
+			// another host, whose name is the SP's behind a few more letters (ssh.example.com / tsp.example.com for sp.example.com)
+			u := mustURL(slo)
+			u.Host = Pick(g, "s", "t", "p", "h", "ss", "htt", "ps", "x") + u.Host
+			if g.Bool(0.3) {
+				u.Scheme = map[string]string{"https": "http", "http": "https"}[u.Scheme]
+			}
+			v, lab = sp(u.String()), "host-letters-prefixed"
 		case 10, 11:
 			// same scheme, host and path, another port (another service on that machine)
 			u := mustURL(slo)
